@@ -21,7 +21,8 @@ RULE = ('carts = (0x4300 bytes of region memory from a mode mixture incl. unifor
         'distinct byte values and code containing a byte >= 0x80 or < 0x20; distinct by the generating seed.'
         ' Written under file names containing braces, percent signs, blanks, non-ASCII and a leading dash. Part "big": a 22k-glyph single line with escapes, 24k characters of glyph comment lines (> 64 KiB of UTF-8, seven alignments), code over the 65535-character limit and over the 8192-token limit (picotool warns and writes), each under a plain and three awkward file names via file / cli / stream.'
         ' Further "big" shapes: line_counts (exactly 128/255/256/257/511/512/513/1024 code lines, with/without final newline) and header_like (lines of the form __X__ that are not section headers by the format\'s ASCII word rule, in strings, comments and as a glyph identifier alone on a line).'
-        ' A sixteenth of the carts end their code in a bare CR.')
+        ' A sixteenth of the carts end their code in a bare CR.'
+        ' A third of the file / cli writes go over an existing, different, labelled cart at the destination (and at *_fmt.p8).')
 ASSUMPTIONS = ['the cart\'s Lua code is what Game.lua.to_lines() yields before the write',
                'sources with a `__section__`-looking line or an #include line are outside the domain (counted)',
                'music bit 7 of every 4th byte is excepted, as the property states']
@@ -108,7 +109,13 @@ def loaded_and_edited(c, edit_seed, case):
     return g, c2
 
 
-def check_cart(c, via, case, g=None, fname='cart'):
+def _other_cart_file():
+    """A complete, different, labelled cart as it may already sit at the destination."""
+    return reffmt.write_p8(27, b'-- the cart that was here before\nold=1\n', bytes(range(256)) * 0x43,
+                           label=bytes((i * 7 + 3) % 16 for i in range(128 * 128)))
+
+
+def check_cart(c, via, case, g=None, fname='cart', over_existing=False):
     """c: dict(mem, version, label, code); via in {'stream','file','cli'}."""
     from pico8.game.formatter.p8 import P8Formatter
     from pico8.game import file as pfile
@@ -140,6 +147,11 @@ def check_cart(c, via, case, g=None, fname='cart'):
         else:
             td = tempfile.TemporaryDirectory(prefix='c03_')
             path = os.path.join(td.name, fname + '.p8')
+            if over_existing:
+                # the destination (and the command line's *_fmt.p8) already hold another cart, with a label
+                for p_old in (path, os.path.join(td.name, fname + '_fmt.p8')):
+                    with open(p_old, 'wb') as fh:
+                        fh.write(_other_cart_file())
             try:
                 pfile.to_file(g, path)
             except Exception as e:
@@ -224,19 +236,24 @@ def one(ctx, seed, via):
         ctx.stats.exclude(ex)
         return
     edited = seed[-3] % 5 == 0
+    over = via != 'stream' and seed[-6] % 3 == 0
     if edited:
         case = {'seed': bytes(seed), 'via': via, 'edited': True}
         g, c = loaded_and_edited(c, seed[-12:], case)
         if len(c['mem']) != 0x4300:
             raise Violation('regions have %d bytes in total after library edits' % len(c['mem']), case, 'edit')
-        check_cart(c, via, case, g, fname=FNAMES[seed[-4] % len(FNAMES)])
+        check_cart(c, via, case, g, fname=FNAMES[seed[-4] % len(FNAMES)], over_existing=over)
     else:
-        check_cart(c, via, {'seed': bytes(seed), 'via': via}, fname=FNAMES[seed[-4] % len(FNAMES)])
+        check_cart(c, via, {'seed': bytes(seed), 'via': via}, fname=FNAMES[seed[-4] % len(FNAMES)], over_existing=over)
     rich = sum(1 for (_n, lo, hi) in cartgen.REGIONS if cartgen.distinct_values(c['mem'][lo:hi]) >= 16)
     nontrivial = rich >= 3 and c['cstats']['has_special_bytes']
     labs = ['via_' + via, 'label' if c['label'] is not None else 'no_label']
     if edited:
         labs.append('loaded_then_edited')
+    if over:
+        labs.append('over_existing_labelled_cart')
+        if c['label'] is None:
+            labs.append('unlabelled_over_existing_labelled_cart')
     if not c['cstats']['final_newline']:
         labs.append('no_final_newline')
     if c['crlf']:
@@ -334,11 +351,12 @@ def replay(case):
         if excluded(c['code']):
             return
         fname = FNAMES[case['seed'][-4] % len(FNAMES)]
+        over = case.get('via', 'stream') != 'stream' and case['seed'][-6] % 3 == 0
         if case.get('edited'):
             g, c = loaded_and_edited(c, case['seed'][-12:], case)
-            check_cart(c, case.get('via', 'stream'), case, g, fname=fname)
+            check_cart(c, case.get('via', 'stream'), case, g, fname=fname, over_existing=over)
         else:
-            check_cart(c, case.get('via', 'stream'), case, fname=fname)
+            check_cart(c, case.get('via', 'stream'), case, fname=fname, over_existing=over)
     else:
         check_cart(case['cart'], case.get('via', 'stream'), case)
 
@@ -347,7 +365,7 @@ def vacuity(total, tier):
     msgs = []
     for lab in ('label', 'no_label', 'no_final_newline', 'via_cli', 'via_file', 'loaded_then_edited', 'untouched_sfx', 'big_oneline', 'big_lines',
                 'big_over_chars', 'big_over_tokens', 'big_line_counts', 'big_header_like', 'awkward_file_name',
-                'code_ends_in_bare_cr'):
+                'code_ends_in_bare_cr', 'unlabelled_over_existing_labelled_cart'):
         if total.classes.get(lab, 0) < 3:
             msgs.append('class %s seen %d times' % (lab, total.classes.get(lab, 0)))
     return msgs
